@@ -29,6 +29,32 @@ def main():
         out.flush()
 
 
+def concrete_truth(ok):
+    """truth of a postcondition evaluated on concrete values (it may still be a closed z3 term)"""
+    import z3
+    z = getattr(ok, 'z', None)
+    if z is None and z3.is_expr(ok):
+        z = ok
+    if z is None:
+        return bool(ok)
+    z = z3.simplify(z)
+    if z3.is_true(z):
+        return True
+    if z3.is_false(z):
+        return False
+    s = z3.Solver()
+    s.add(z3.Not(z))
+    r = s.check()
+    if r == z3.unsat:
+        return True
+    if r == z3.sat:
+        s2 = z3.Solver()
+        s2.add(z)
+        if s2.check() == z3.unsat:
+            return False
+    raise RuntimeError('postcondition did not evaluate to a truth value on concrete inputs: %s' % z)
+
+
 def evaluate(req, env, spec, REGISTRY, Raised):
     try:
         h = REGISTRY[req['h']]
@@ -60,8 +86,8 @@ def evaluate(req, env, spec, REGISTRY, Raised):
             if last and '/vf/' in last.replace('\\', '/'):
                 return {'status': 'error', 'detail': 'harness-side %s: %s' % (type(ex).__name__, ex)}
             outcome = Raised(ex)
-        ok = h.post(env, inp, outcome, p)
-        if ok is True or (ok is not False and bool(ok)):
+        ok = concrete_truth(h.post(env, inp, outcome, p))
+        if ok:
             return {'status': 'ok', 'outcome': repr(outcome)[:300]}
         return {'status': 'violated', 'outcome': repr(outcome)[:300]}
     except StepBudgetExceeded:
